@@ -15,6 +15,15 @@ would not have changed its state on it. (In the code both reject exactly the non
 def NoSkew (cfg : Config) (H : Sub SH Pkt RH) (T : Sub ST Pkt RT) : Prop :=
   cfg.http = true → cfg.tcp = true → ∀ sh p, (H.step sh p).2 = none → ∀ st, (T.step st p).1 = st
 
+/-- How `NoSkew` is met by the code: there is a gate on the packet alone (`is it TCP`) such that HTTP rejects only
+packets outside the gate and the TCP processor leaves its state alone outside the gate. (HTTP's only error is
+`UnsupportedProtocol` for a next-header other than TCP; the TCP processor rejects those before touching its
+tracker. The correspondence run feeds `udp` frames to both.) -/
+theorem noSkew_of_gate (cfg : Config) (H : Sub SH Pkt RH) (T : Sub ST Pkt RT) (gate : Pkt → Bool)
+    (hH : ∀ sh p, (H.step sh p).2 = none → gate p = false)
+    (hT : ∀ st p, gate p = false → (T.step st p).1 = st) : NoSkew cfg H T :=
+  fun _ _ sh p h st => hT st p (hH sh p h)
+
 /-- One packet: the glue's result is the masked union of what the processors say, and each enabled
 processor's state advances exactly as in its standalone analyzer. -/
 theorem extract_step (cfg : Config) (H : Sub SH Pkt RH) (T : Sub ST Pkt RT) (L : Pkt → Option RL)
